@@ -3,7 +3,9 @@ package checks
 import (
 	"encoding/json"
 	"fmt"
+	"regexp"
 	"strings"
+	"time"
 
 	"golang.org/x/net/html"
 
@@ -64,9 +66,14 @@ var wOpens = []wTok{
 }
 var wLeaves = []wTok{
 	{"leaf", "br", "<br>"}, {"leaf", "img", "<img>"}, {"leaf", "img", "<img src=x>"}, {"leaf", "br", "<br/>"}, {"leaf", "b", "<b/>"}, {"leaf", "x", "<x/>"}, {"leaf", "my-y", "<my-y/>"},
-	{"leaf", "!", "<!-- c -->"},
+	{"leaf", "!", "<!-- c -->"}, {"leaf", "hr", "<hr>"},
+}
+
+// wVoidLeaves: the remaining void elements; fed only under policies that give void elements rules of their own
+// (elsewhere they are all the same disallowed leaf as <hr> above).
+var wVoidLeaves = []wTok{
 	{"leaf", "source", "<source>"}, {"leaf", "input", "<input>"}, {"leaf", "embed", "<embed>"}, {"leaf", "area", "<area>"}, {"leaf", "track", "<track>"},
-	{"leaf", "link", "<link>"}, {"leaf", "meta", "<meta>"}, {"leaf", "param", "<param>"}, {"leaf", "base", "<base>"}, {"leaf", "col", "<col>"}, {"leaf", "hr", "<hr>"}, {"leaf", "wbr", "<wbr>"},
+	{"leaf", "link", "<link>"}, {"leaf", "meta", "<meta>"}, {"leaf", "param", "<param>"}, {"leaf", "base", "<base>"}, {"leaf", "col", "<col>"}, {"leaf", "wbr", "<wbr>"},
 }
 
 var rawEls = map[string]bool{"title": true, "script": true, "style": true, "iframe": true, "textarea": true, "xmp": true, "noscript": true, "noembed": true, "noframes": true, "plaintext": true}
@@ -78,7 +85,7 @@ func e2Specs() []spec.Spec {
 	}
 	return []spec.Spec{
 		w("e2-default"),
-		w("e2-skip-b", C{Op: "SkipElementsContent", Names: []string{"b", "x"}}),
+		w("e2-skip-b", C{Op: "SkipElementsContent", Names: []string{"b", "x", "my-x\u00e9", "my-x\"q"}}),
 		w("e2-skip-after-default", C{Op: "SkipElementsContent", Names: []string{"style", "x", "OBJECT", "my-y"}}, C{Op: "SkipElementsContent", Names: []string{"x", "span"}}, C{Op: "AllowElementsContent", Names: []string{"TITLE", "nosuch"}}),
 		w("e2-keep-object", C{Op: "AllowElementsContent", Names: []string{"object", "title"}}),
 		w("e2-pattern", C{Op: "AllowElementsMatching", Re: reMy}, attrsPat([]string{"id"}, "", reMy)),
@@ -148,9 +155,59 @@ func skipClass(v *spec.View, el string) (skip, dontcare bool) {
 }
 
 type e2Case struct {
-	Spec spec.Spec `json:"spec"`
-	Path []wTok    `json:"path"`
-	Doc  string    `json:"document"`
+	Spec   spec.Spec `json:"spec"`
+	Path   []wTok    `json:"path"`
+	Doc    string    `json:"document"`
+	Before *string   `json:"sanitised_before,omitempty"` // two-call layer: this document was sanitised first on the same policy
+}
+
+// c09Balance judges a complete, well-nested input document's output.
+func c09Balance(out string) (string, string) {
+	return judgeE2C09(&e2State{}, out)
+}
+
+var c09WellNested = []string{
+	`<p><a href="/x"><span>t</span></a> and <b>m</b></p>`, `<a href="/x"><a>t</a></a>`, `<b><span>t</span><a>u</a></b>`, `<object><a>1</a></object><a href="/a">A</a>`,
+	`<my-x id=a><my-y>t</my-y></my-x><b>u</b>`, `<p><b><a href="/x">t</a></b></p><p><a>v</a></p>`,
+}
+
+// c09TwoCalls: the balance of a well-nested document's output does not depend on what the policy sanitised before
+// (any fragment sequence of length <=3, well nested or not).
+func c09TwoCalls(c *run.Ctx) {
+	var bs []built
+	for _, s := range e2Specs() {
+		switch s.Name {
+		case "e2-default", "e2-pattern-bare", "e2-ugc", "e2-spaces":
+			bs = append(bs, build(s))
+		}
+	}
+	k := 3
+	SeqsS(c, "c09two", fragCore, 1, k, func(x []byte, _ []int) {
+		for i := range bs {
+			b := &bs[i]
+			if _, pm := San(b.P, string(x)); pm != "" {
+				continue // panics are C14's subject
+			}
+			for _, y := range c09WellNested {
+				out, pm := San(b.P, y)
+				c.Eval()
+				c.Transitions++
+				c.Traces++
+				c.NontrivialN++
+				if pm != "" {
+					continue
+				}
+				if sig, what := c09Balance(out); sig != "" {
+					before := string(x)
+					c.Violate("after-earlier-call|"+sig, fmt.Sprintf("%s; policy=%s document=%s output=%s after the same policy sanitised %s", what, b.S.Name, run.Q(y), run.Q(out), run.Q(before)),
+						e2Case{Spec: b.S, Doc: y, Before: &before})
+					c.Outcome("violation|after-earlier-call")
+					continue
+				}
+				c.Outcome("balanced-after-earlier-call")
+			}
+		}
+	})
 }
 
 func runE2(c *run.Ctx, prop string) {
@@ -162,6 +219,9 @@ func runE2(c *run.Ctx, prop string) {
 	if !hooks.Available {
 		c.Cap("binary built without the instrumentation overlay: state = input stack only, documents bounded to 6 tokens")
 	}
+	if prop == "C09" {
+		c09TwoCalls(c)
+	}
 	for si, s := range specs {
 		if si%c.NShards != c.Shard {
 			continue
@@ -169,7 +229,9 @@ func runE2(c *run.Ctx, prop string) {
 		b := build(s)
 		r := &e2Runner{b: &b}
 		hooks.SetLoopState(func(render func() string) { r.render = render })
+		t0 := time.Now()
 		e2Search(c, prop, r, depth)
+		c.Notes["seconds_"+s.Name] = float64(int(time.Since(t0).Seconds()*10)) / 10
 		hooks.SetLoopState(nil)
 	}
 	if c.Shard == 0 {
@@ -188,15 +250,24 @@ func e2Search(c *run.Ctx, prop string, r *e2Runner, depth int) {
 		return
 	}
 	haveLoop := false
+	loopInit := ""
 	// an empty document short-circuits before the loop, so probe with one text token
 	if hooks.Available {
 		_, l, _ := r.run("t")
 		haveLoop = l != ""
+		loopInit = l
 		if !haveLoop {
 			c.Cap("token loop not located by the overlay: state = input stack only, documents bounded to 6 tokens")
 		}
 	}
+	voidRules := false
+	for _, l := range wVoidLeaves {
+		if v.ElementAllowed(l.El) {
+			voidRules = true
+		}
+	}
 	seen := map[string]bool{}
+	capped := false
 	key := func(loop string, stack []string, n int) string {
 		if haveLoop {
 			return loop + "|" + strings.Join(stack, ">")
@@ -230,6 +301,9 @@ func e2Search(c *run.Ctx, prop string, r *e2Runner, depth int) {
 			}
 			if !rawEls[top] {
 				toks = append(toks, wLeaves...)
+				if voidRules {
+					toks = append(toks, wVoidLeaves...)
+				}
 				if len(st.stack) < depth {
 					toks = append(toks, wOpens...)
 				}
@@ -288,6 +362,9 @@ func e2Search(c *run.Ctx, prop string, r *e2Runner, depth int) {
 						c.NontrivialN++
 					}
 				}
+				if sig == "" && prop == "C08" && haveLoop && tk.Kind == "close" && st.skip == 1 && ns.skip == 0 {
+					sig, what = e2Transparency(c, r, path, out, loop, loopInit)
+				}
 				if sig != "" {
 					c.Violate(sig, fmt.Sprintf("%s; policy=%s document=%s output=%s", what, r.b.S.Name, run.Q(doc), run.Q(out)), cs)
 					c.Outcome("violation|" + sig)
@@ -299,6 +376,13 @@ func e2Search(c *run.Ctx, prop string, r *e2Runner, depth int) {
 				}
 				if seen[k] {
 					c.Outcome("transition-to-visited-state")
+					continue
+				}
+				if len(seen) >= e2MaxStates {
+					if !capped {
+						capped = true
+						c.Cap(fmt.Sprintf("policy %s: more than %d distinct token-loop states (does the loop state vary with every call?); search stopped widening", r.b.S.Name, e2MaxStates))
+					}
 					continue
 				}
 				seen[k] = true
@@ -313,6 +397,80 @@ func e2Search(c *run.Ctx, prop string, r *e2Runner, depth int) {
 		frontier = next
 	}
 }
+
+var (
+	reMRST   = regexp.MustCompile(`mostRecentlyStartedToken="(?:[^"\\]|\\.)*"`)
+	reMarker = regexp.MustCompile(`m[0-9]+m`)
+)
+
+// e2Transparency: a complete skipped element leaves no trace. path ends with the close token of an outermost
+// disallowed skip-content element. If the token loop's state now differs from its state just before that element
+// was opened (ignoring the raw-text bookkeeping of mostRecentlyStartedToken, which C05 covers), the difference is
+// judged by behaviour: every continuation <X>text</X> over the open-tag alphabet, and every leaf, must produce
+// the same output after the skipped element as it does without it.
+func e2Transparency(c *run.Ctx, r *e2Runner, path []wTok, out, loop, loopInit string) (string, string) {
+	j, d := -1, 0
+	for i := len(path) - 1; i >= 0; i-- {
+		switch path[i].Kind {
+		case "close":
+			d++
+		case "open":
+			d--
+		}
+		if d == 0 {
+			j = i
+			break
+		}
+	}
+	if j < 0 {
+		return "", ""
+	}
+	prefix := path[:j]
+	outP, loopP := "", loopInit
+	if j > 0 {
+		var pm string
+		outP, loopP, pm = r.run(serialise(prefix))
+		if c != nil {
+			c.Eval()
+		}
+		if pm != "" {
+			return "", ""
+		}
+	}
+	if reMRST.ReplaceAllString(loop, "") == reMRST.ReplaceAllString(loopP, "") {
+		return "", ""
+	}
+	var conts [][]wTok
+	for _, o := range wOpens {
+		if rawEls[o.El] {
+			continue
+		}
+		conts = append(conts, []wTok{o, {Kind: "text"}, {Kind: "close", El: o.El}})
+	}
+	for _, l := range wLeaves {
+		conts = append(conts, []wTok{l})
+	}
+	for _, ct := range conts {
+		a, _, pm1 := r.run(serialise(append(append([]wTok{}, prefix...), ct...)))
+		b, _, pm2 := r.run(serialise(append(append([]wTok{}, path...), ct...)))
+		if c != nil {
+			c.Eval()
+		}
+		if pm1 != "" || pm2 != "" {
+			continue
+		}
+		da := reMarker.ReplaceAllString(strings.TrimPrefix(a, outP), "M")
+		db := reMarker.ReplaceAllString(strings.TrimPrefix(b, out), "M")
+		if strings.TrimSpace(da) != strings.TrimSpace(db) {
+			return "outside-affected", fmt.Sprintf("content after a complete skipped element is treated differently than without it: %s yields %s here but %s when the skipped element is absent",
+				run.Q(serialise(ct)), run.Q(db), run.Q(da))
+		}
+	}
+	return "", ""
+}
+
+// e2MaxStates bounds the visited set of one policy's search (the clean tree stays below 200k at depth 4).
+const e2MaxStates = 1500000
 
 func onlySpaces(s string) bool { return strings.Trim(s, " ") == "" }
 
@@ -390,14 +548,26 @@ func replayE2(raw json.RawMessage, prop string) (bool, string) {
 	var cs e2Case
 	json.Unmarshal(raw, &cs)
 	b := build(cs.Spec)
+	if cs.Before != nil {
+		San(b.P, *cs.Before)
+		out, pm := San(b.P, cs.Doc)
+		if pm != "" {
+			return true, "panic: " + pm
+		}
+		sig, what := c09Balance(out)
+		return sig != "", what + " output=" + run.Q(out) + " after sanitising " + run.Q(*cs.Before)
+	}
 	r := &e2Runner{b: &b}
+	hooks.SetLoopState(func(render func() string) { r.render = render })
+	defer hooks.SetLoopState(nil)
+	_, loopInit, _ := r.run("t")
 	// replay the path token by token, exactly as the search did
 	st := &e2State{}
 	var lastSig, lastWhat string
 	for i, tk := range cs.Path {
 		path := cs.Path[:i+1]
 		doc := serialise(path)
-		out, _, pm := r.run(doc)
+		out, loop, pm := r.run(doc)
 		if pm != "" {
 			return true, "panic: " + pm
 		}
@@ -428,6 +598,9 @@ func replayE2(raw json.RawMessage, prop string) (bool, string) {
 		}
 		if prop == "C08" {
 			lastSig, lastWhat = judgeE2C08(b.V, st, ns, tk, i, delta)
+			if lastSig == "" && loopInit != "" && tk.Kind == "close" && st.skip == 1 && ns.skip == 0 {
+				lastSig, lastWhat = e2Transparency(nil, r, path, out, loop, loopInit)
+			}
 		} else {
 			lastSig, lastWhat = judgeE2C09(ns, out)
 		}
